@@ -1,4 +1,5 @@
 import HcipyVerif.Model.Grid
+import HcipyVerif.Model.GridLayout
 import HcipyVerif.Model.Proto
 
 /-!
@@ -417,6 +418,18 @@ def stepEffect (st : Store) : List String → Option (Effect × String)
   | ["eqrow", i] => do
     let i ← parseNat? i; let a ← st[i]?
     pure (Effect.keep, "ok " ++ String.join (st.map fun b => showBool (a.eq b)))
+  | ["hashl", i, modes] => do
+    -- the hash input of grid `i` when its coordinate arrays lie in memory in the layouts `modes` (one per array:
+    -- 0 contiguous, 1 negative stride, 2 stride 2, 3 offset view); then the C_CONTIGUOUS flag of every array and
+    -- whether the views denote the grid's values
+    let i ← parseNat? i; let g ← st[i]?; let modes ← parseNatList? modes
+    match g.coords.arrays? with
+    | some (sep, arrays) =>
+      if modes.length ≠ arrays.length then none else
+      let arrs := List.zipWith LArr.make modes arrays
+      pure (Effect.keep, "ok " ++ ",".intercalate ((hashInputL g.system sep arrs).map showTok) ++ " f" ++
+        String.join (arrs.map fun a => showBool a.contiguous) ++ " " ++ showBool (decide (arrs.map LArr.values = arrays)))
+    | none => pure (Effect.keep, "err value")
   | ["hash", i] => do
     let i ← parseNat? i; let g ← st[i]?
     pure (Effect.keep, "ok " ++ ",".intercalate (g.hashInput.map showTok))
@@ -431,7 +444,7 @@ def slotArgs : List String → List String
     if op ∈ ["set", "copy", "todict", "rtdict", "rtdictas", "scale", "scaled", "shift", "shifted", "shiftf", "shiftedf",
              "absorbs", "shiftvals", "reverse", "reversed", "reverseold", "rotate", "rotated", "protate", "protated",
              "mat", "fft", "super", "sub", "show", "points", "wlist", "wlistold", "aspolar", "ascart", "image", "size",
-             "hash", "eqrow", "pshift", "pshifted", "layout", "hashl", "asrt", "same"] then [i] else []
+             "hash", "eqrow", "pshift", "pshifted", "hashl", "same"] then [i] else []
   | _ => []
 
 /-- does the request name a slot the store does not have?  (The implementation created an object
